@@ -21,11 +21,18 @@ def unlink(v):
         m = LINK.match(v[1])
         if m: return (m.group(1), int(m.group(2)), m.group(4))
     return None
+def cellval(v):
+    """numeric value of a cell that is either a plain number or a hyperlink whose payload is the number"""
+    l = unlink(v)
+    try:
+        return float(l[2]) if l else (float(v[1]) if v and v[0] == "num" else None)
+    except (TypeError, ValueError):
+        return None
 def txt(v):
     l = unlink(v)
     return l[2].strip('"') if l else (v[1] if v else "")
 
-WHICH = {"C06": ["full"], "C05": ["full", "us", "us", "ie"], "C13": ["full"], "C19": ["full"], "C14": ["us", "ie"], "C15": ["open"], "C20": ["jp"], "C07": ["full"], "C16": ["full", "us", "ie", "open", "jp"]}
+WHICH = {"C04": ["full"], "C06": ["full"], "C05": ["full", "us", "us", "ie"], "C13": ["full"], "C19": ["full"], "C14": ["us", "ie"], "C15": ["open"], "C20": ["jp"], "C07": ["full"], "C16": ["full", "us", "ie", "open", "jp"]}
 _CRAFT = {"k": 0}
 def capacity_rows(rng, n, price=None):
     """one purchase and `n` small sales of it on consecutive days: with several such assets in one run a sheet of the tax report receives
@@ -36,8 +43,26 @@ def capacity_rows(rng, n, price=None):
         rows.append(["OUT", 7 + k, us(t0 + timedelta(days=30 + k)), 0, "SELL", 0, rprice(rng), U, 0, None, None, None])
     return rows
 
+def expense_rows(rng, fees, moves, lost):
+    """one purchase, then fee-only disposals, transfers with a fee and losses: three transaction types that share one sheet of the tax
+    report (Investment Expenses); together they outgrow the template although none of the types does alone"""
+    t0 = datetime(2020, 2, 3, 12, tzinfo=timezone.utc)
+    rows = [["IN", 3, us(t0), 0, "BUY", 0, rprice(rng), (fees + moves + lost + 20) * U, None, None, None]]
+    k = 0
+    for _ in range(fees):
+        rows.append(["OUT", 7 + k, us(t0 + timedelta(days=20 + k)), 0, "FEE", 0, rprice(rng), 0, U // 10, None, None, None]); k += 1
+    for _ in range(lost):
+        rows.append(["OUT", 7 + k, us(t0 + timedelta(days=20 + k)), 0, "LOST", 0, rprice(rng), U // 10, 0, None, None, None]); k += 1
+    for j in range(moves):
+        rows.append(["INTRA", 10 + k + j, us(t0 + timedelta(days=20 + k + j)), 0, 0, 1, rprice(rng), U, U - U // 100])
+    return rows
+
 def gen(rng, prop=None):
     _CRAFT["k"] += 1
+    if prop in ("C14", "C16") and _CRAFT["k"] == 3:
+        f, m, l = rng.randint(50, 58), rng.randint(36, 42), rng.randint(0, 6)
+        return {"which": rng.choice(["us", "ie"]), "assets": {"B1": expense_rows(rng, f, m, l), "B2": capacity_rows(rng, 5)},
+                "sched": {"1970": "fifo"}, "from": None, "to": None}
     if prop in ("C14", "C16") and _CRAFT["k"] == 2:
         n = rng.randint(38, 47)
         return {"which": rng.choice(["us", "ie"]), "assets": {a: capacity_rows(rng, n + j) for j, a in enumerate(["B1", "B2", "B3"])},
@@ -99,11 +124,11 @@ def extract_full(path, assets, a2c):
         cd = a2c[a]; io = full[f"{a} In-Out"]; tax = full[f"{a} Tax"]
         ins = list(cd.in_transaction_set); outs = list(cd.out_transaction_set); xs = list(cd.intra_transaction_set)
         for (r, row), t in zip(data_rows(io, find(io, "In-Flow Detail")), ins + [None] * 99):
-            L.append(["IOIN", a, r, int(t.internal_id) if t else None, None if row[0] in (("str", ""), None) else row[0][1], row[7][1], row[8][1], row[1][1] if t is None else (row[1][1] == str(t.timestamp))])
+            L.append(["IOIN", a, r, int(t.internal_id) if t else None, None if row[0] in (("str", ""), None) else row[0][1], row[7][1], row[8][1], row[6][1], row[9][1], row[10][1], row[11][1], row[1][1] if t is None else (row[1][1] == str(t.timestamp))])
         for (r, row), t in zip(data_rows(io, find(io, "Out-Flow Detail")), outs + [None] * 99):
-            L.append(["IOOUT", a, r, int(t.internal_id) if t else None, row[7][1], row[8][1], row[9][1], row[10][1], row[1][1] if t is None else (row[1][1] == str(t.timestamp))])
+            L.append(["IOOUT", a, r, int(t.internal_id) if t else None, row[7][1], row[8][1], row[9][1], row[10][1], row[6][1], row[11][1], row[12][1], row[1][1] if t is None else (row[1][1] == str(t.timestamp))])
         for (r, row), t in zip(data_rows(io, find(io, "Intra-Flow Detail")), xs + [None] * 99):
-            L.append(["IOX", a, r, int(t.internal_id) if t else None, row[8][1], row[9][1], row[10][1], row[11][1], row[1][1] if t is None else (row[1][1] == str(t.timestamp))])
+            L.append(["IOX", a, r, int(t.internal_id) if t else None, row[8][1], row[9][1], row[10][1], row[11][1], row[7][1], row[12][1], 1.0 if str(row[13][1]).upper() == "YES" else 0.0, row[1][1] if t is None else (row[1][1] == str(t.timestamp))])
         for r, row in data_rows(tax, find(tax, "Gain / Loss Summary")):
             L.append(["TY", a, r, int(row[0][1]), row[4][1].lower(), row[3][1] == "LONG", row[2][1], row[5][1], row[6][1], row[7][1]])
         for r, row in data_rows(tax, find(tax, "Account Balances")):
@@ -114,7 +139,8 @@ def extract_full(path, assets, a2c):
             el = unlink(row[5]); ll = unlink(row[12]) if len(row) > 12 else None
             lab = txt(row[11]).split(":")[0]; llab = txt(row[19]).split(":")[0] if len(row) > 19 and row[19] else "-/-"
             L.append(["TD", a, r, int(g.taxable_event.internal_id) if g else None, (int(g.acquired_lot.internal_id) if g.acquired_lot else None) if g else None,
-                      row[0][1], row[2][1], row[3][1], row[4][1] == "LONG", [el[0], el[1]] if el else None, [ll[0], ll[1]] if ll else None, lab, llab])
+                      row[0][1], row[2][1], row[3][1], row[4][1] == "LONG", [el[0], el[1]] if el else None, [ll[0], ll[1]] if ll else None, lab, llab,
+                      cellval(row[8]), (cellval(row[16]) if len(row) > 16 and row[16] else None) or 0.0])        # proceeds; cost basis (income rows: blank = 0)
     for r, row in data_rows(full["Summary"], 0):
         l = unlink(row[0]); L.append(["SU", r, txt(row[1]), int(float(txt(row[0]))), txt(row[4]).lower(), txt(row[3]) == "LONG", [l[0], l[1]] if l else None])
     return L, full
@@ -147,7 +173,7 @@ def extract_open(path, assets):
 def extract_jp(path):
     L = []
     for name, rows in read_ods(path):
-        if not re.match(r"^B[\w.\-]*_\d{4}$", name): continue
+        if not re.match(r"^.+_\d{4}$", name): continue
         refs = [REF.match(c[1]) for r in rows for c in r if c and c[0] == "formula" and REF.match(c[1])]; close = None
         for i, r in enumerate(rows):
             if len(r) > 8 and r[8] and r[8][0] == "formula" and re.match(r"^=E\d+\+F\d+-H\d+$", r[8][1]): close = i + 1
@@ -196,14 +222,14 @@ def parse_model(case, block):
     dd = lambda s: None if s == "-" else [int(x) for x in s.split("-")]
     for ln in lines:
         t = ln.split(" ")
-        if t[0] == "IOIN": L.append(["IOIN", t[1], int(t[2]), int(t[3]), q(t[4]), fl(t[5]), fl(t[6]), True])
-        elif t[0] == "IOOUT": L.append(["IOOUT", t[1], int(t[2]), int(t[3]), fl(t[4]), fl(t[5]), fl(t[6]), fl(t[7]), True])
-        elif t[0] == "IOX": L.append(["IOX", t[1], int(t[2]), int(t[3]), fl(t[4]), fl(t[5]), fl(t[6]), fl(t[7]), True])
+        if t[0] == "IOIN": L.append(["IOIN", t[1], int(t[2]), int(t[3]), q(t[4]), fl(t[5]), fl(t[6])] + [fl(x) for x in t[7:11]] + [True])
+        elif t[0] == "IOOUT": L.append(["IOOUT", t[1], int(t[2]), int(t[3]), fl(t[4]), fl(t[5]), fl(t[6]), fl(t[7])] + [fl(x) for x in t[8:11]] + [True])
+        elif t[0] == "IOX": L.append(["IOX", t[1], int(t[2]), int(t[3]), fl(t[4]), fl(t[5]), fl(t[6]), fl(t[7])] + [fl(x) for x in t[8:11]] + [True])
         elif t[0] == "TY": L.append(["TY", t[1], int(t[2]), int(t[3]), t[4], t[5] == "1", fl(t[6]), fl(t[7]), fl(t[8]), fl(t[9])])
         elif t[0] == "TB": L.append(["TB", t[1], int(t[2]), int(t[3]), fl(t[4]), fl(t[5]), fl(t[6]), fl(t[7])])
         elif t[0] == "TT": L.append(["TT", t[1], int(t[2]), t[3], fl(t[4])])
         elif t[0] == "TP": L.append(["TP", t[1], int(t[2]), fl(t[3])])
-        elif t[0] == "TD": L.append(["TD", t[1], int(t[2]), int(t[3]), n(t[4]), fl(t[5]), fl(t[6]), fl(t[7]), t[8] == "1", [f"{t[1]} In-Out", int(t[9])] if t[9] != "-" else None, [f"{t[1]} In-Out", int(t[10])] if t[10] != "-" else None, t[11], t[12]])
+        elif t[0] == "TD": L.append(["TD", t[1], int(t[2]), int(t[3]), n(t[4]), fl(t[5]), fl(t[6]), fl(t[7]), t[8] == "1", [f"{t[1]} In-Out", int(t[9])] if t[9] != "-" else None, [f"{t[1]} In-Out", int(t[10])] if t[10] != "-" else None, t[11], t[12], fl(t[13]) if len(t) > 13 else None, fl(t[14]) if len(t) > 14 else None])
         elif t[0] == "SU": L.append(["SU", int(t[1]), t[2], int(t[3]), t[4], t[5] == "1", [f"{t[2]} Tax", int(t[6])] if t[6] != "-" else None])
         elif t[0] == "TR": L.append(["TR", t[1].replace("_", " "), int(t[2]), t[3], fl(t[4]), fl(t[5]), q(t[6]), fl(t[7]), t[8] == "1", dd(t[9]), dd(t[10]), t[11], t[12]])
         elif t[0] == "SHEETS": sheets = sorted(x.replace("_", " ") for x in t[1].split(",") if x) if len(t) > 1 else []
@@ -222,7 +248,7 @@ def pub(r): return {k: v for k, v in r.items() if not k.startswith("_")}
 KIND = {"IOIN": "inout", "IOOUT": "inout", "IOX": "inout", "TY": "taxsheet", "TB": "taxsheet", "TT": "taxsheet", "TP": "taxsheet", "TD": "detail", "SU": "summary",
         "TR": "taxreport", "OA": "open", "OE": "open", "OT": "open", "JS": "jp", "JR": "jp"}
 def strip_links(r):
-    if r[0] == "TD": return r[:9] + r[11:]
+    if r[0] == "TD": return r[:9] + r[11:]          # everything but the two link targets (compared under "links")
     if r[0] == "SU": return r[:6]
     return r
 def only_links(r):
@@ -305,6 +331,17 @@ def oracle_c13(case, res, guard=True):
         for r in order("INTRA"): run += r[7] - r[8]; pre[r[1]] = run / U
         for r in res["rows"]:
             if r[0] == "IOX" and r[1] == a and r[3] in pre and not close(r[7], pre[r[3]]): return f"{a} In-Out row {r[2]}: transfer-fee running sum {r[7]} vs {pre[r[3]]}"
+        # fiat columns of the three tables: the values of the transaction itself (spot price, fee, in / out amounts; taxable flag of a transfer)
+        txs = {("IOIN", int(t.internal_id)): t for t in cd.in_transaction_set}
+        txs.update({("IOOUT", int(t.internal_id)): t for t in cd.out_transaction_set}); txs.update({("IOX", int(t.internal_id)): t for t in cd.intra_transaction_set})
+        for r in res["rows"]:
+            t = txs.get((r[0], r[3])) if r[0] in ("IOIN", "IOOUT", "IOX") and r[1] == a else None
+            if t is None: continue
+            if r[0] == "IOIN" and len(r) > 11: want = [float(t.spot_price), float(t.fiat_fee), float(t.fiat_in_no_fee), float(t.fiat_in_with_fee)]; got = r[7:11]
+            elif r[0] == "IOOUT" and len(r) > 11: want = [float(t.spot_price), float(t.fiat_out_no_fee), float(t.fiat_fee)]; got = r[8:11]
+            elif r[0] == "IOX" and len(r) > 11: want = [float(t.spot_price), float(t.fiat_fee), 1.0 if t.is_taxable() else 0.0]; got = r[8:11]
+            else: continue
+            if got != want: return f"{a} In-Out row {r[2]} ({r[0][2:]} transaction {r[3]}): spot price / fiat columns {got} vs the transaction's {want}"
         sold = {}
         for g in cd.gain_loss_set:
             if g.acquired_lot is not None: sold[int(g.acquired_lot.internal_id)] = sold.get(int(g.acquired_lot.internal_id), 0) + F(g.crypto_amount) / F(g.acquired_lot.crypto_in)
@@ -316,6 +353,8 @@ def oracle_c13(case, res, guard=True):
         if len(det) != len(gls): return f"{a}: {len(det)} detail rows for {len(gls)} fractions"
         for r, g in zip(det, gls):
             if r[5] != float(g.crypto_amount) or r[7] != float(g.fiat_gain) or r[8] != g.is_long_term_capital_gains(): return f"{a} Tax row {r[2]}: values differ from the computed fraction"
+            if len(r) > 14 and (r[13] != float(g.taxable_event_fiat_amount_with_fee_fraction) or r[14] != float(g.fiat_cost_basis)):
+                return f"{a} Tax row {r[2]}: proceeds / cost basis shown {r[13]!r} / {r[14]!r} vs computed {float(g.taxable_event_fiat_amount_with_fee_fraction)!r} / {float(g.fiat_cost_basis)!r}"
             k = cd.gain_loss_set.get_taxable_event_fraction(g) + 1; nn = cd.gain_loss_set.get_taxable_event_number_of_fractions(g.taxable_event)
             if r[11] != f"{k}/{nn}": return f"{a} Tax row {r[2]}: label {r[11]} vs {k}/{nn}"
         # k/n labels are 1..n per event, independently of the accessors
@@ -498,7 +537,13 @@ def oracle_c16(case, res, guard=True):
     if guard and case["which"] == "jp" and not fee_visible(case): return None      # finding F13
     if res["status"].startswith(("gen-error", "crash")): return f"report generator {case['which']} ends with an internal error ({res['status']}) on a valid input"
     return None
-ORACLES = {"C06": oracle_c06, "C05": oracle_c05, "C16": oracle_c16, "C07": oracle_c07, "C13": oracle_c13, "C14": oracle_c14, "C15": oracle_c15, "C19": oracle_c19, "C20": oracle_c20}
+def oracle_c04(case, res, guard=True):
+    """the Proceeds / Cost Basis / Gain cells of the real full report are the computed figures (which the pipeline stream compares with exact
+    arithmetic): the clauses of the C13 oracle that are about those cells"""
+    v = oracle_c13(case, res, guard)
+    return v if v and ("proceeds / cost basis" in v or "values differ from the computed fraction" in v) else None
+
+ORACLES = {"C04": oracle_c04, "C06": oracle_c06, "C05": oracle_c05, "C16": oracle_c16, "C07": oracle_c07, "C13": oracle_c13, "C14": oracle_c14, "C15": oracle_c15, "C19": oracle_c19, "C20": oracle_c20}
 
 def shrink_candidates(case):
     for a in list(case["assets"]):
